@@ -208,3 +208,9 @@ Definition observe (m : mstate) : obs :=
 (* the same parameters applied to a brand-new context *)
 Definition fresh_params (p : rparams) (mem : list Z) : rparams :=
   mkR (Some mem) (r_loadedDictSize p) (r_ntab p) (r_buflow p) (r_lit p) (r_row p).
+
+(* ZSTD_resetCCtx_byCopyingCDict (tables, tag table and salt copied from the CDict after the reset): a CDict is
+   always reset with salt 0 (ZSTD_reset_matchState, forWho == ZSTD_resetTarget_CDict), so a context that copied a
+   row-based CDict hashes with salt 0; otherwise the salt is the one the reset left. *)
+Definition salt_after_cdict_copy (m : mstate) (p : rparams) : Z :=
+  if r_row p then 0 else m_hashSalt (reset m p).
